@@ -850,3 +850,105 @@ package stack
 //@   loop 2: invariant fresh(out) && (forall i :: 0 <= i && i < len(out) ==> visited[out[i]] && at[out[i]] == i)
 //@   loop 2: invariant forall k string :: visited[k] ==> 0 <= at[k] && at[k] < len(out) && out[at[k]] == k
 //@   loop 2: invariant forall k string :: visited[k] ==> dom(files, k)
+
+// ---- stack.go: nameArguments (C06, C15) -----------------------------------------
+// The collection phase (the closure visit called through the recursive,
+// higher-order Args.walk) is outside the verifier's subset: its effect on the
+// objects map is an assumed contract (every list is non-empty and holds non-nil
+// pointer arguments whose value is the key). The numbering phases are verified
+// against it.
+//@ spec numName(n int) string
+//@ axiom [numNameInjective] forall a int, b int :: numName(a) == numName(b) ==> a == b
+//@ lemma [C15] distinctNumbersDistinctNames(a int, b int)
+//@   requires a != b
+//@   ensures numName(a) != numName(b)
+
+//@ func (uint64Slice).Len
+//@   modifies nothing
+//@   ensures [lenIsLen C15] result == len(a)
+//@ func (uint64Slice).Less
+//@   requires 0 <= i && i < len(a) && 0 <= j && j < len(a)
+//@   modifies nothing
+//@   ensures [lessIsAscending C06 C15] result <==> a[i] < a[j]
+//@ func (uint64Slice).Swap
+//@   requires 0 <= i && i < len(a) && 0 <= j && j < len(a)
+//@   modifies elems(a)
+//@   ensures [swapExchanges C06 C15] a[i] == old(a[j]) && a[j] == old(a[i]) && forall k :: 0 <= k && k < len(a) && k != i && k != j ==> a[k] == old(a[k])
+
+//@ func nameArguments$1
+//@   option assumed
+//@   requires arg != nil && objects != nil
+//@   modifies mapof(objects)
+
+//@ func (*Args).walk
+//@   option assumed
+//@   option closure=visitor:nameArguments$1
+//@   requires a != nil && objects != nil && (forall v uint64 :: dom(objects, v) ==> len(objects[v].args) >= 1) && (forall v uint64, i int :: dom(objects, v) && 0 <= i && i < len(objects[v].args) ==> objects[v].args[i] != nil && objects[v].args[i].Value == v && objects[v].args[i].IsPtr)
+//@   modifies mapof(objects)
+//@   ensures (forall v uint64 :: dom(objects, v) ==> len(objects[v].args) >= 1) && (forall v uint64, i int :: dom(objects, v) && 0 <= i && i < len(objects[v].args) ==> objects[v].args[i] != nil && objects[v].args[i].Value == v && objects[v].args[i].IsPtr)
+
+//@ func nameArguments
+//@   option det=both key lists are sorted after being collected in map order and the keys of a map are distinct, so each naming loop runs over the strictly ascending enumeration of a set of keys that is a function of the map (asserts firstOrderExact, secondOrderExact)
+//@   requires forall g :: 0 <= g && g < len(goroutines) ==> goroutines[g] != nil
+//@   modifies Arg.Name
+//@   gvar at1 [uint64]int
+//@   gvar at2 [uint64]int
+//@   gvar num [uint64]int
+//@   gvar vof [int]uint64
+//@   gvar n1 int
+//@   update after-call append#1: at1[k] := len(order)
+//@   update after-call sort.Sort#1: at1 := lambda x :: uperm[at1[x]]
+//@   update after-store Arg.Name#1: num[k] := nextID; vof[nextID] := k
+//@   update after-call append#2: at2[k] := len(order)
+//@   update after-call sort.Sort#2: at2 := lambda x :: uperm[at2[x]]; n1 := nextID - 1
+//@   update after-store Arg.Name#2: num[k] := nextID; vof[nextID] := k
+//@   assert after-call sort.Sort#1: [firstOrderExact C06 C15] (forall i, j :: 0 <= i && i < j && j < len(order) ==> order[i] < order[j]) && (forall i :: 0 <= i && i < len(order) ==> (dom(objects, order[i]) && len(objects[order[i]].args) > 1 && objects[order[i]].inPrimary) && at1[order[i]] == i) && (forall x uint64 :: (dom(objects, x) && len(objects[x].args) > 1 && objects[x].inPrimary) ==> 0 <= at1[x] && at1[x] < len(order) && order[at1[x]] == x)
+//@   assert after-call sort.Sort#2: [secondOrderExact C06 C15] (forall i, j :: 0 <= i && i < j && j < len(order) ==> order[i] < order[j]) && (forall i :: 0 <= i && i < len(order) ==> dom(objects, order[i]) && at2[order[i]] == i) && (forall x uint64 :: dom(objects, x) ==> 0 <= at2[x] && at2[x] < len(order) && order[at2[x]] == x)
+//@   assert after-call len#7: [phase1Numbered C15 needs=firstOrderExact+p1Index+p1Names+p1Nums] nextID == len(order) + 1 && (forall x uint64 :: (dom(objects, x) && len(objects[x].args) > 1 && objects[x].inPrimary) ==> num[x] == at1[x] + 1 && vof[num[x]] == x && (forall j :: 0 <= j && j < len(objects[x].args) ==> objects[x].args[j].Name == numName(num[x])))
+//@   assert after-call len#7: [phase1Ascending C15 needs=firstOrderExact+phase1Numbered] forall x uint64, y uint64 :: (dom(objects, x) && len(objects[x].args) > 1 && objects[x].inPrimary) && (dom(objects, y) && len(objects[y].args) > 1 && objects[y].inPrimary) && x < y ==> num[x] < num[y]
+//@   assert after-call len#7: [phase1Dense C15 needs=firstOrderExact+phase1Numbered+p1Index+p1Nums] forall n :: 1 <= n && n < nextID ==> (dom(objects, vof[n]) && len(objects[vof[n]].args) > 1 && objects[vof[n]].inPrimary) && num[vof[n]] == n
+//@   assert after-call len#7: [phase1Rest C15] forall x uint64, j int, a *Arg :: dom(objects, x) && 0 <= j && j < len(objects[x].args) && a == objects[x].args[j] && !(dom(objects, x) && len(objects[x].args) > 1 && objects[x].inPrimary) ==> a.Name == old(a.Name)
+//@   loop 0: invariant -1 <= rangeindex && objects != nil && fresh(objects) && (forall v uint64 :: dom(objects, v) ==> len(objects[v].args) >= 1) && (forall v uint64, i int :: dom(objects, v) && 0 <= i && i < len(objects[v].args) ==> objects[v].args[i] != nil && objects[v].args[i].Value == v && objects[v].args[i].IsPtr)
+//@   loop 1: invariant -1 <= rangeindex#2 && objects != nil && fresh(objects) && (forall v uint64 :: dom(objects, v) ==> len(objects[v].args) >= 1) && (forall v uint64, i int :: dom(objects, v) && 0 <= i && i < len(objects[v].args) ==> objects[v].args[i] != nil && objects[v].args[i].Value == v && objects[v].args[i].IsPtr)
+//@   loop 2: invariant fresh(order) && (forall i :: 0 <= i && i < len(order) ==> visited[order[i]] && (dom(objects, order[i]) && len(objects[order[i]].args) > 1 && objects[order[i]].inPrimary) && at1[order[i]] == i)
+//@   loop 2: invariant forall x uint64 :: visited[x] && (dom(objects, x) && len(objects[x].args) > 1 && objects[x].inPrimary) ==> 0 <= at1[x] && at1[x] < len(order) && order[at1[x]] == x
+//@   loop 2: invariant (forall a *Arg :: !a.IsPtr ==> a.Name == old(a.Name))
+//@   loop 3: invariant [p1Index] -1 <= rangeindex && rangeindex < len(order) && nextID == rangeindex + 2
+//@   loop 3: invariant [p1Names] forall i, j :: 0 <= i && i <= rangeindex && 0 <= j && j < len(objects[order[i]].args) ==> objects[order[i]].args[j].Name == numName(i + 1)
+//@   loop 3: invariant [p1Nums] (forall i :: 0 <= i && i <= rangeindex ==> num[order[i]] == i + 1 && vof[i + 1] == order[i]) && (forall n :: 1 <= n && n <= rangeindex + 1 ==> vof[n] == order[n - 1])
+//@   loop 3: invariant [p1Untouched] forall x uint64, j int, a *Arg :: dom(objects, x) && 0 <= j && j < len(objects[x].args) && a == objects[x].args[j] && !((dom(objects, x) && len(objects[x].args) > 1 && objects[x].inPrimary) && at1[x] <= rangeindex) ==> a.Name == old(a.Name)
+//@   loop 3: invariant [p1NonPtr] (forall a *Arg :: !a.IsPtr ==> a.Name == old(a.Name))
+//@   loop 3: decreases len(order) - rangeindex
+//@   loop 4: invariant [p1iIndex] -1 <= rangeindex#4 && 0 <= rangeindex#3 && rangeindex#3 < len(order) && k == order[rangeindex#3] && nextID == rangeindex#3 + 1
+//@   loop 4: invariant [p1iNames] forall i, j :: 0 <= i && i < rangeindex#3 && 0 <= j && j < len(objects[order[i]].args) ==> objects[order[i]].args[j].Name == numName(i + 1)
+//@   loop 4: invariant [p1iNums] (forall i :: 0 <= i && i < rangeindex#3 ==> num[order[i]] == i + 1 && vof[i + 1] == order[i]) && (forall n :: 1 <= n && n <= rangeindex#3 ==> vof[n] == order[n - 1])
+//@   loop 4: invariant [p1iCurrent] (forall j :: 0 <= j && j <= rangeindex#4 ==> objects[k].args[j].Name == numName(nextID)) && (rangeindex#4 >= 0 ==> num[k] == nextID && vof[nextID] == k)
+//@   loop 4: invariant [p1iUntouched] forall x uint64, j int, a *Arg :: dom(objects, x) && 0 <= j && j < len(objects[x].args) && a == objects[x].args[j] && !((dom(objects, x) && len(objects[x].args) > 1 && objects[x].inPrimary) && at1[x] <= rangeindex#3) ==> a.Name == old(a.Name)
+//@   loop 4: invariant [p1iNonPtr] (forall a *Arg :: !a.IsPtr ==> a.Name == old(a.Name))
+//@   loop 4: decreases len(objects[k].args) - rangeindex#4
+//@   loop 5: invariant fresh(order) && (forall i :: 0 <= i && i < len(order) ==> visited[order[i]] && dom(objects, order[i]) && at2[order[i]] == i)
+//@   loop 5: invariant forall x uint64 :: visited[x] ==> dom(objects, x) && 0 <= at2[x] && at2[x] < len(order) && order[at2[x]] == x
+//@   loop 6: invariant [p2Index] -1 <= rangeindex && n1 + 1 <= nextID
+//@   loop 6: invariant [p2Phase1Kept] (forall x uint64 :: (dom(objects, x) && len(objects[x].args) > 1 && objects[x].inPrimary) ==> 1 <= num[x] && num[x] <= n1 && vof[num[x]] == x && (forall j :: 0 <= j && j < len(objects[x].args) ==> objects[x].args[j].Name == numName(num[x]))) && (forall x uint64, y uint64 :: (dom(objects, x) && len(objects[x].args) > 1 && objects[x].inPrimary) && (dom(objects, y) && len(objects[y].args) > 1 && objects[y].inPrimary) && x < y ==> num[x] < num[y]) && (forall n :: 1 <= n && n <= n1 ==> (dom(objects, vof[n]) && len(objects[vof[n]].args) > 1 && objects[vof[n]].inPrimary) && num[vof[n]] == n)
+//@   loop 6: invariant [p2Done] forall i :: 0 <= i && i <= rangeindex && !objects[order[i]].inPrimary ==> n1 + 1 <= num[order[i]] && num[order[i]] < nextID && vof[num[order[i]]] == order[i] && (forall j :: 0 <= j && j < len(objects[order[i]].args) ==> objects[order[i]].args[j].Name == numName(num[order[i]]))
+//@   loop 6: invariant [p2Ascending] forall i, i2 :: 0 <= i && i < i2 && i2 <= rangeindex && !objects[order[i]].inPrimary && !objects[order[i2]].inPrimary ==> num[order[i]] < num[order[i2]]
+//@   loop 6: invariant [p2Dense] forall n :: n1 + 1 <= n && n < nextID ==> (dom(objects, vof[n]) && !objects[vof[n]].inPrimary) && 0 <= at2[vof[n]] && at2[vof[n]] <= rangeindex && num[vof[n]] == n
+//@   loop 6: invariant [p2Untouched] forall x uint64, j int, a *Arg :: dom(objects, x) && 0 <= j && j < len(objects[x].args) && a == objects[x].args[j] && !(dom(objects, x) && len(objects[x].args) > 1 && objects[x].inPrimary) && (objects[x].inPrimary || at2[x] > rangeindex) ==> a.Name == old(a.Name)
+//@   loop 6: invariant [p2NonPtr] (forall a *Arg :: !a.IsPtr ==> a.Name == old(a.Name))
+//@   loop 6: decreases len(order) - rangeindex
+//@   loop 7: invariant [p2iIndex] -1 <= rangeindex#6 && 0 <= rangeindex#5 && rangeindex#5 < len(order) && k == order[rangeindex#5] && !objects[k].inPrimary && n1 + 1 <= nextID
+//@   loop 7: invariant [p2iPhase1Kept] (forall x uint64 :: (dom(objects, x) && len(objects[x].args) > 1 && objects[x].inPrimary) ==> 1 <= num[x] && num[x] <= n1 && vof[num[x]] == x && (forall j :: 0 <= j && j < len(objects[x].args) ==> objects[x].args[j].Name == numName(num[x]))) && (forall x uint64, y uint64 :: (dom(objects, x) && len(objects[x].args) > 1 && objects[x].inPrimary) && (dom(objects, y) && len(objects[y].args) > 1 && objects[y].inPrimary) && x < y ==> num[x] < num[y]) && (forall n :: 1 <= n && n <= n1 ==> (dom(objects, vof[n]) && len(objects[vof[n]].args) > 1 && objects[vof[n]].inPrimary) && num[vof[n]] == n)
+//@   loop 7: invariant [p2iDone] forall i :: 0 <= i && i < rangeindex#5 && !objects[order[i]].inPrimary ==> n1 + 1 <= num[order[i]] && num[order[i]] < nextID && vof[num[order[i]]] == order[i] && (forall j :: 0 <= j && j < len(objects[order[i]].args) ==> objects[order[i]].args[j].Name == numName(num[order[i]]))
+//@   loop 7: invariant [p2iAscending] forall i, i2 :: 0 <= i && i < i2 && i2 < rangeindex#5 && !objects[order[i]].inPrimary && !objects[order[i2]].inPrimary ==> num[order[i]] < num[order[i2]]
+//@   loop 7: invariant [p2iDense] forall n :: n1 + 1 <= n && n < nextID ==> (dom(objects, vof[n]) && !objects[vof[n]].inPrimary) && 0 <= at2[vof[n]] && at2[vof[n]] < rangeindex#5 && num[vof[n]] == n
+//@   loop 7: invariant [p2iCurrent] (forall j :: 0 <= j && j <= rangeindex#6 ==> objects[k].args[j].Name == numName(nextID)) && (rangeindex#6 >= 0 ==> num[k] == nextID && vof[nextID] == k)
+//@   loop 7: invariant [p2iUntouched] forall x uint64, j int, a *Arg :: dom(objects, x) && 0 <= j && j < len(objects[x].args) && a == objects[x].args[j] && !(dom(objects, x) && len(objects[x].args) > 1 && objects[x].inPrimary) && (objects[x].inPrimary || at2[x] > rangeindex#5) ==> a.Name == old(a.Name)
+//@   loop 7: invariant [p2iNonPtr] (forall a *Arg :: !a.IsPtr ==> a.Name == old(a.Name))
+//@   loop 7: decreases len(objects[k].args) - rangeindex#6
+//@   at-return [sameValueSameName C15] forall x uint64, j int :: (dom(objects, x) && (objects[x].inPrimary ? len(objects[x].args) > 1 : true)) && 0 <= j && j < len(objects[x].args) ==> objects[x].args[j].Name == numName(num[x])
+//@   at-return [namesDense C15] (forall x uint64 :: (dom(objects, x) && (objects[x].inPrimary ? len(objects[x].args) > 1 : true)) ==> 1 <= num[x] && num[x] < nextID) && (forall n :: 1 <= n && n < nextID ==> (dom(objects, vof[n]) && (objects[vof[n]].inPrimary ? len(objects[vof[n]].args) > 1 : true)) && num[vof[n]] == n)
+//@   at-return [ascendingAddressOrder C15] forall x uint64, y uint64 :: (dom(objects, x) && (objects[x].inPrimary ? len(objects[x].args) > 1 : true)) && (dom(objects, y) && (objects[y].inPrimary ? len(objects[y].args) > 1 : true)) && objects[x].inPrimary == objects[y].inPrimary && x < y ==> num[x] < num[y]
+//@   at-return [primaryFirst C15] forall x uint64, y uint64 :: (dom(objects, x) && (objects[x].inPrimary ? len(objects[x].args) > 1 : true)) && (dom(objects, y) && (objects[y].inPrimary ? len(objects[y].args) > 1 : true)) && objects[x].inPrimary && !objects[y].inPrimary ==> num[x] < num[y]
+//@   at-return [distinctValuesDistinctNames C15 uses=distinctNumbersDistinctNames needs=ascendingAddressOrder+primaryFirst] forall x uint64, y uint64 :: (dom(objects, x) && (objects[x].inPrimary ? len(objects[x].args) > 1 : true)) && (dom(objects, y) && (objects[y].inPrimary ? len(objects[y].args) > 1 : true)) && x != y ==> numName(num[x]) != numName(num[y])
+//@   at-return [unnamedKeepTheirName C15] forall x uint64, j int, a *Arg :: dom(objects, x) && 0 <= j && j < len(objects[x].args) && a == objects[x].args[j] && !(dom(objects, x) && (objects[x].inPrimary ? len(objects[x].args) > 1 : true)) ==> a.Name == old(a.Name)
+//@   ensures [nonPointersNeverNamed C15] (forall a *Arg :: !a.IsPtr ==> a.Name == old(a.Name))
